@@ -162,3 +162,38 @@ def corpus_codes(shard=0, nshards=1, modules=None):
         for c in codes:
             out.append((f"{m}:{c.co_qualname if hasattr(c, 'co_qualname') else c.co_name}:{c.co_firstlineno}", c))
     return out
+
+
+def corpus_function_sources(shard=0, nshards=1, modules=None):
+    """(label, dedented source) of module-level functions and methods of the
+    fixed module list whose source is available."""
+    import inspect
+    import textwrap
+
+    out = []
+    for mi, m in enumerate(modules or MODULES):
+        if mi % nshards != shard:
+            continue
+        try:
+            mod = importlib.import_module(m)
+        except Exception:
+            continue
+        fns = []
+        for nm in sorted(vars(mod)):
+            obj = vars(mod)[nm]
+            if isinstance(obj, types.FunctionType) and obj.__module__ == mod.__name__:
+                fns.append((nm, obj))
+            elif isinstance(obj, type) and obj.__module__ == mod.__name__:
+                for k in sorted(vars(obj)):
+                    v = vars(obj)[k]
+                    if isinstance(v, (staticmethod, classmethod)):
+                        v = v.__func__
+                    if isinstance(v, types.FunctionType):
+                        fns.append((f"{nm}.{k}", v))
+        for nm, f in fns:
+            try:
+                src = textwrap.dedent(inspect.getsource(f))
+            except Exception:
+                continue
+            out.append((f"{m}:{nm}", src))
+    return out
